@@ -61,9 +61,25 @@ def build_harness():
     return out
 
 
+_SCRATCH = []
+
+
+def _sweep():
+    if os.environ.get("VERIF_KEEP"):
+        return
+    for d in _SCRATCH:
+        shutil.rmtree(d, ignore_errors=True)
+
+
 def scratch(prefix):
+    """A private directory under work/; whatever a check leaves behind is removed when the process ends."""
     os.makedirs(WORK, exist_ok=True)
-    return tempfile.mkdtemp(prefix=prefix + ".", dir=WORK)
+    d = tempfile.mkdtemp(prefix=prefix + ".", dir=WORK)
+    if not _SCRATCH:
+        import atexit
+        atexit.register(_sweep)
+    _SCRATCH.append(d)
+    return d
 
 
 # --------------------------------------------------------------------------------------
